@@ -37,7 +37,7 @@ def run(run, replay=None):
     n = 0
     per = 2 if quick else 20
     for ids in paths:
-        for _ in range(per):
+        for rep in range(per):
             seed = rng.randrange(1 << 30)
             base_data, _ = fgen.build_file(ids, random.Random(seed))
             base = rdriver.read_bytes(base_data)
@@ -46,6 +46,12 @@ def run(run, replay=None):
             nins = rng.choice([1, 1, 2, 3])
             ks = rng.sample(KEYS, nins)
             ins = [(rng.randrange(len(ids)), rng.randrange(0, 6), k, rng.choice(VALS)) for k in ks]
+            if rep % 2 == 1 and len(ids) >= 2:
+                # the SAME unknown key on several headers of one file, with values of different kinds in either order
+                k = rng.choice(KEYS)
+                secs = sorted(rng.sample(range(len(ids)), min(len(ids), rng.choice([2, 2, 3]))))
+                kinds = rng.choice([['abc', '12', '7'], ['12', 'abc', '5'], ['1.0', '7', 'x'], ['007', 'v1', '5'], ['-', '0', '-5']])
+                ins = [(si, rng.randrange(0, 6), k, kinds[j]) for j, si in enumerate(secs)]
             data, _ = fgen.build_file(ids, random.Random(seed), unknown=ins)
             c = rdriver.case(n, 'unknown', data, cat, base=base[0], baseend=base[1],
                              ins=[{'sec': si + 1, 'k': list(k.encode()), 'v': list(v.encode())} for si, _, k, v in ins],
